@@ -43,6 +43,10 @@ def run(tier, seed, work, replay):
         {"kind": "otp", "origin": "five-failures-then-right", "steps": [F, W, F, W, F, W, F, W, F, W, T, W, T]},
         {"kind": "otp", "origin": "ten-failures-then-right", "steps": sum([[F, W] for _ in range(10)], []) + [T, {"op": "wait", "d": 4000}, T]},
         {"kind": "otp", "origin": "lock-expires", "steps": sum([[F, W] for _ in range(5)], []) + [{"op": "wait", "d": 4000}, T]},
+        {"kind": "otp", "origin": "lock-after-idle-hours", "steps": [F, W, T, {"op": "wait", "d": 10800}] + sum([[F, W] for _ in range(5)], []) +
+         [T, {"op": "wait", "d": 3500}, T, {"op": "wait", "d": 200}, T]},
+        {"kind": "otp", "origin": "lock-after-idle-hours-twice", "steps": [T, {"op": "wait", "d": 7300}, F, W, T, {"op": "wait", "d": 5000}] +
+         sum([[F, W] for _ in range(5)], []) + [T, W, T, {"op": "wait", "d": 3700}, T]},
         {"kind": "otp", "origin": "day-reset", "steps": sum([[F, W] for _ in range(4)], []) + [{"op": "wait", "d": 90000}, F, W, T]},
     ]
     n, depth = (25, 30) if tier == "quick" else (300, 45)
